@@ -198,19 +198,15 @@ class CameraViewPort:
     """Class to represent a camera viewport"""
 
     def __init__(self, origin, size) -> None:
-        if isinstance(origin, np.ndarray) and origin.shape != VEC2I.btype.shape:
-            raise TypeError(
-                f"origin must be a {VEC2I.btype.shape} if it is a numpy array"
-            )
-        elif isinstance(origin, list) or isinstance(origin, tuple) and len(origin) != 2:
-            raise TypeError("origin must be of length 2 if it is a list or tuple")
+        if not isinstance(origin, (np.ndarray, list, tuple)):
+            raise TypeError("origin must be a numpy array, a list or a tuple")
+        if np.shape(origin) != VEC2I.btype.shape:
+            raise TypeError(f"origin must be of shape {VEC2I.btype.shape}")
 
-        if isinstance(size, np.ndarray) and size.shape != VEC2I.btype.shape:
-            raise TypeError(
-                f"size must be a {VEC2I.btype.shape} if it is a numpy array"
-            )
-        elif isinstance(size, list) or isinstance(size, tuple) and len(size) != 2:
-            raise TypeError("size must be of length 2 if it is a list or tuple")
+        if not isinstance(size, (np.ndarray, list, tuple)):
+            raise TypeError("size must be a numpy array, a list or a tuple")
+        if np.shape(size) != VEC2I.btype.shape:
+            raise TypeError(f"size must be of shape {VEC2I.btype.shape}")
 
         self.origin = origin
         "Origin of the viewport, a 2D vector of integers"
